@@ -154,3 +154,50 @@ func addPageInfoCases(c *Corr, rep *Report, src string, page *nurl.URL, replay i
 		}
 	}
 }
+
+// addNumberScanCase: the DOM half of the page-number algorithm (Model/Scan.lean: the loop over the
+// anchors and the walk to the neighbouring leaves) — tree in, groups of adjacent numbers out —
+// against the groups the real scan leaves.  Per-anchor page infos come from the real
+// getPageInfoAndText (modelled separately, stage pageinfo), word counts from the real counter.
+func addNumberScanCase(c *Corr, rep *Report, src string, page *nurl.URL, replay interface{}) {
+	d := parseDoc(src)
+	root := d.elementRoot()
+	if root == nil {
+		return
+	}
+	data := distiller.VerifPagination(d.Root, page)
+	var parts []string
+	for _, g := range data.Groups {
+		var items []string
+		for _, p := range g.List {
+			items = append(items, fmt.Sprintf("%d:%s", p.Num, hx(p.URL)))
+		}
+		parts = append(parts, fmt.Sprintf("<%d:%s>", g.DeltaSign, strings.Join(items, ",")))
+	}
+	trimmed, err := nurl.Parse(data.DocURLArg)
+	if err != nil {
+		rep.hist("numberscan:page-url-unparseable")
+		return
+	}
+	var sb strings.Builder
+	d.encodeTree(root, &sb)
+	var infos, blanks []string
+	sample := textOf(d.Root)
+	for _, n := range d.Nodes {
+		switch {
+		case n.Type == html.ElementNode && n.Data == "a":
+			if num, u, _, ok := distiller.VerifPageInfoOf(n, trimmed); ok {
+				infos = append(infos, fmt.Sprintf("%d %d %s", d.ID[n], num, hx(u)))
+			}
+		case n.Type == html.TextNode:
+			if n.Data == "" {
+				blanks = append(blanks, fmt.Sprint(d.ID[n]))
+			} else if _, cnt := distiller.VerifSelectAndCount(sample, n.Data); cnt == 0 {
+				blanks = append(blanks, fmt.Sprint(d.ID[n]))
+			}
+		}
+	}
+	fmt.Fprintf(&sb, " %d %s %d %s", len(infos), strings.Join(infos, " "), len(blanks), strings.Join(blanks, " "))
+	c.add(sb.String(), strings.Join(parts, " "), replay)
+	rep.histN("numberscan-groups", len(data.Groups))
+}
